@@ -221,6 +221,45 @@ theorem C05_dispel_random (cat : C) (l : List I) (status : Nat) (count : Int) (s
       refine List.mem_filterMap.2 ⟨p, ?_, List.getElem?_eq_getElem hlt⟩
       exact hp.mem_iff.2 (List.mem_range.2 hlt)
 
+/-! ### the resist roll -/
+
+/-- **Applications without a positive base chance are never rolled** (and never resisted), whatever
+the generator would say. -/
+theorem C05_no_chance_no_roll (cat : C) (s : St Rat) (t : Int) (d : Desc Rat) (h : baseChance d ≤ 0) :
+    resists cat s t d = false := by
+  have : ¬ (baseChance d > 0) := not_lt.mpr h
+  simp [resists, this]
+
+/-- **The roll**: with a positive base chance the application is resisted exactly when the drawn
+number is not below base × (1 + source's effect hit rate) × (1 − target's effect resistance) ×
+(1 − target's resistance to the shape's flags); a target that resists the effect completely
+(resistance 1) resists every roll, and a chance above every possible draw (draws are below 1) is
+never resisted. -/
+theorem C05_resist_roll (cat : C) (s : St Rat) (t : Int) (d : Desc Rat) (h : baseChance d > 0) :
+    (resists cat s t d = true ↔ applyChance cat s t d ≤ s.draws.headD 0) ∧
+    (lookupA s.eres t = 1 → 0 ≤ s.draws.headD 0 → resists cat s t d = true) ∧
+    (1 ≤ applyChance cat s t d → s.draws.headD 0 < 1 → resists cat s t d = false) := by
+  refine ⟨?_, ?_, ?_⟩
+  · simp [resists, h, not_lt]
+  · intro h1 h0
+    have : applyChance cat s t d = 0 := by simp [applyChance, h1]
+    simp only [List.headD_eq_head?_getD] at h0
+    simp [resists, h, this, not_lt, h0]
+  · intro h1 hd
+    have : s.draws.headD 0 < applyChance cat s t d := lt_of_lt_of_le hd h1
+    simp only [List.headD_eq_head?_getD] at this
+    simp [resists, this]
+
+/-- the resistance looked up for a shape is the largest among its flags, and 0 without flags -/
+theorem C05_debuff_res (m : List (Nat × Rat)) : debuffRes m [] = 0 ∧
+    ∀ f x, m.find? (·.1 == f) = some (f, x) → debuffRes m [f] = max 0 x := by
+  refine ⟨rfl, ?_⟩
+  intro f x h
+  simp only [debuffRes, List.foldl_cons, List.foldl_nil, h]
+  by_cases hx : x > 0
+  · simp [hx, max_eq_right (le_of_lt hx)]
+  · simp [hx, max_eq_left (not_lt.mp hx)]
+
 /-! ### complete behaviour without listeners -/
 
 /-- **Remove** (no listeners): the instances of that name leave, the others keep their order, and
